@@ -74,8 +74,18 @@ func genC13(rng *rand.Rand, c *Case) {
 		case k < 13:
 			c.Ops = append(c.Ops, Op{C: ci, K: "idle"})
 		case k < 14 && rng.Intn(3) == 0:
-			// the administrator disconnects a user, who may be in the middle of something
-			c.Ops = append(c.Ops, Op{C: n, K: "kick", N: []int{rng.Intn(n)}})
+			// the administrator disconnects a user, who may be in the middle of something - half of the time at the
+			// very moment that user changes its name or options (rendezvous, outside serial mode)
+			t := rng.Intn(n)
+			if rng.Intn(2) == 0 {
+				c.Ops = append(c.Ops, Op{C: n, K: "meet", N: []int{j, 2}}, Op{C: t, K: "meet", N: []int{j, 2}})
+				if rng.Intn(2) == 0 {
+					c.Ops = append(c.Ops, Op{C: t, K: "rename", N: []int{1 + rng.Intn(20), rng.Intn(1000)}})
+				} else {
+					c.Ops = append(c.Ops, Op{C: t, K: "opts", N: []int{rng.Intn(8)}})
+				}
+			}
+			c.Ops = append(c.Ops, Op{C: n, K: "kick", N: []int{t}})
 		case k < 14:
 			c.Ops = append(c.Ops, Op{C: ci, K: "delay", N: []int{rng.Intn(60)}})
 		default:
@@ -322,12 +332,17 @@ func runC13(w *World) {
 				if op.C != idx || c.Closed {
 					continue
 				}
-				if op.K != "delay" {
+				if op.K != "delay" && op.K != "meet" {
 					takeTurn()
 				}
 				switch op.K {
 				case "delay":
 					Delay(op.N[0])
+					continue
+				case "meet":
+					if !serial {
+						w.Meet(op.N[0], op.N[1])
+					}
 					continue
 				case "rename":
 					ver[idx]++
